@@ -3771,6 +3771,11 @@ class DecVarSub(VarSub):
             sup_model = self.dro_model.sup_model
             self.rand_adapt = np.zeros((self.size, sup_model.vars[-1].last),
                                        dtype=np.int8)
+        else:
+            num_rand = self.dro_model.sup_model.vars[-1].last
+            extra = num_rand - self.rand_adapt.shape[1]
+            if extra > 0:
+                self.rand_adapt = np.pad(self.rand_adapt, ((0, 0), (0, extra)))
 
         dec_indices = self.indices
         dec_indices = dec_indices.reshape((dec_indices.size, 1))
